@@ -5,7 +5,7 @@ steps), so tape shrinking converges towards it.
 """
 from .model import BUFFERING, DELAYS
 
-STEP_CHOICES = [1, 2, 3, 4, 5, 6, 7, 8, 10, 12]
+STEP_CHOICES = [1, 2, 3, 4, 5, 6, 7, 8, 10, 12, 1, 2, 3, 5, 25, 36]     # hours; a few steps longer than a day
 PASS = ["scale", "callback"]
 BUF = ["next", "prev", "linear", "step", "avg", "sum"]
 STEP_POS = ["0", "1/4", "1/2", "3/4", "1"]
